@@ -96,10 +96,10 @@ Print Assumptions C20_union_none.
 
 Theorem C20_partial_order : forall s o, cs_valid s -> cs_valid o ->
   match cs_pcmp s o with
-  | PEq => s = o
-  | PLt => s <> o /\ forall x y, mem x s -> mem y o -> x < y
-  | PGt => s <> o /\ forall x y, mem x s -> mem y o -> y < x
-  | PNone => s <> o /\ exists x y x' y', mem x s /\ mem y o /\ mem x' s /\ mem y' o /\ x <= y /\ y' <= x'
+  | OrdEq => s = o
+  | OrdLt => s <> o /\ forall x y, mem x s -> mem y o -> x < y
+  | OrdGt => s <> o /\ forall x y, mem x s -> mem y o -> y < x
+  | OrdNone => s <> o /\ exists x y x' y', mem x s /\ mem y o /\ mem x' s /\ mem y' o /\ x <= y /\ y' <= x'
   end.
 Proof. exact pcmp_spec. Qed.
 Print Assumptions C20_partial_order.
